@@ -105,7 +105,11 @@ impl CandidateZone {
         let mut unique = Vec::with_capacity(original_len);
 
         for zone in zones {
-            let key = (zone.zone_id, zone.segment_id.clone());
+            let key = (
+                zone.zone_id,
+                zone.segment_id.clone(),
+                zone.uid().map(str::to_string),
+            );
             if seen.insert(key) {
                 unique.push(zone);
             }
